@@ -262,7 +262,9 @@ class StreamModel:
         self.fire = fire_cont_frame
         self.skip = skip_utf8
 
-    def run(self, frames):
+    def run(self, frames, resume=False):
+        """resume=True: the caller keeps receiving after a rejection; the rejected frame (or, for ill-formed text,
+        the rejected message) is dropped and everything else is unaffected."""
         events = []
         writes = []
         in_msg = False
@@ -272,6 +274,8 @@ class StreamModel:
             v = frame_violation(f, in_msg, check_utf8=not self.skip)
             if v:
                 events.append(("raise", "protocol", v, idx))
+                if resume:
+                    continue
                 return events, writes
             if f.opcode in DATA_OPS:
                 if self.fire:
@@ -289,6 +293,8 @@ class StreamModel:
                     in_msg = False
                     if first_op == TEXT and not self.skip and not utf8_wellformed(buf):
                         events.append(("raise", "payload", "text-utf8", idx))
+                        if resume:
+                            continue
                         return events, writes
                     events.append(("ret", first_op, 1, buf, idx))
             elif f.opcode == CLOSE:
